@@ -534,6 +534,18 @@ def dnskey_record(ctx):
                 if not (isinstance(got, tuple) and len(got) == 2 and got[1] == len(wire)) or not isinstance(made.get('key'), Key):
                     out['problems'].setdefault('parse', 'a %s record of %d octets parses to %r (consumed %r)' % (name, len(wire), got[0] if isinstance(got, tuple) else got, got[1] if isinstance(got, tuple) and len(got) == 2 else None))
                     continue
+                if kt != 'RSA':
+                    # a key format of fixed size followed by one more octet: the octet belongs to nothing and must not be dropped (the
+                    # modulus of an RSA key takes whatever follows the exponent)
+                    out['runs'] += 1
+                    try:
+                        extra = Evaluator({'cls': 'cls', 'parsable': wire + b'\x00'}, hook, nh).function(fp.node)
+                        out['problems'].setdefault('parse', 'a %s record whose %d octet key is followed by one more octet is accepted (consumed %r of %d): '
+                                                   'trailing key bytes are dropped' % (name, len(key), extra[1] if isinstance(extra, tuple) and len(extra) == 2 else extra,
+                                                                                      len(wire) + 1))
+                    except Raised as e:
+                        if 'TooMuchData' not in e.what and 'InvalidValue' not in e.what:
+                            out['problems'].setdefault('parse', 'a %s record whose key is followed by one more octet ends in %s' % (name, e.what[:60]))
                 me = Obj(flags=made.get('flags'), algorithm=made.get('algorithm'), key=made.get('key'), protocol=made.get('protocol'), _repo_class=c)
                 try:
                     again = Evaluator({'self': me}, hook, nh).function(fc.node)
